@@ -17,6 +17,7 @@ REPO = os.environ.get("VERIF_REPO", "/repo")
 PY = os.environ.get("VERIF_PY", "/venv/bin/python")
 NPROC = int(os.environ.get("VERIF_NPROC", "16"))
 WORK = os.environ.get("VERIF_WORK", "/var/tmp/vp-work")
+OUT = os.environ.get("VERIF_OUT", VERIF)  # where evidence/ and replays/viol-* are written (mutant trials redirect it)
 
 LEVELS = {"exploration", "fault_enumeration", "model_checking", "proof", "translation_validation", "other"}
 
@@ -121,14 +122,14 @@ class Run:
             self.labels["duplicate_violation_same_signature"] += 1
             return False
         self._viol_sigs.add(signature)
-        d = os.path.join(VERIF, "replays", self.pid)
+        d = os.path.join(OUT, "replays", self.pid)
         os.makedirs(d, exist_ok=True)
         body = {"property": self.pid, "signature": signature, "text": text, "case": case}
         safe = "".join(c if c.isalnum() or c in "-_." else "_" for c in signature)[:80]
         path = os.path.join(d, "viol-%s-%s.json" % (safe, chash(case)))
         with open(path, "w") as f:
             json.dump(body, f, indent=1, default=repr)
-        rel = os.path.relpath(path, VERIF)
+        rel = os.path.relpath(path, OUT)
         self.violations.append({"signature": signature, "text": trunc(text, 600), "replay": rel})
         print("VIOLATION property=%s replay=%s" % (self.pid, rel), flush=True)
         print("  signature: %s\n  %s" % (signature, trunc(text, 800)), flush=True)
@@ -160,8 +161,8 @@ class Run:
             "wall_s": round(wall, 2),
             "violations": len(self.violations),
         }
-        os.makedirs(os.path.join(VERIF, "evidence"), exist_ok=True)
-        p = os.path.join(VERIF, "evidence", "%s.json" % self.pid)
+        os.makedirs(os.path.join(OUT, "evidence"), exist_ok=True)
+        p = os.path.join(OUT, "evidence", "%s.json" % self.pid)
         with open(p, "w") as f:
             json.dump(ev, f, indent=1, default=repr)
         try:
